@@ -148,7 +148,7 @@ CHECKS = {
         "order_rows, partition_by=1 windows, joins/concats whose other leg reads the boundary table or an original "
         "table) - are composed through a >> b, DataOpArrow composition, replace_leaves and eval with a map of "
         "pipelines. Every route must return, the composed pipeline's Pandas result must equal b evaluated on a's "
-        "materialised result, (a>>b)>>c and a>>(b>>c) must give the sequential result and compare equal, and dom()/cod() "
+        "materialised result, (a>>b)>>c and a>>(b>>c) must both give the sequential result (structural equality of the two is counted, not required), and dom()/cod() "
         "of the composed pipeline/arrow must be the tables and columns it reads and produces.",
         "Trusted: the Pandas executor for sequential application. a >> b is only exercised when b reads a single table.",
         "4/C07",
